@@ -346,7 +346,7 @@ func customCase(c *mon.Case, idx int, cc customCipher) {
 			c.Eq(fmt.Sprintf("reference decryption, %s %v padding %s", cc.name, m, pname), got, msg)
 			cin := ar.put(offCT, keep)
 			for _, ep := range []string{"Decrypt", "priv.Decrypt(DecrypterOptsWithUID)"} {
-				if ep != "Decrypt" && (len(uid) == 0 || keep[0] == 0x30) {
+				if ep != "Decrypt" && (len(uid) == 0 || ref.IsOneSequence(keep)) {
 					continue
 				}
 				ar.mark()
@@ -433,8 +433,8 @@ func decOptsCase(c *mon.Case, idx int, hid byte) {
 					}
 				}
 			}
-			if raw[0] == 0x30 {
-				continue // priv.Decrypt tells the encodings apart by the bytes
+			if ref.IsOneSequence(raw) {
+				continue // priv.Decrypt is specified to read input that is exactly one DER SEQUENCE as ASN.1 (c10.sniff constructs such ciphertexts)
 			}
 			// raw ciphertext: needs the mode
 			d.EncrypterOpts = optsOf(m)
